@@ -12,7 +12,6 @@ package syncx
 import (
 	"fmt"
 	"runtime"
-	"sort"
 	"strconv"
 	"strings"
 	"sync"
@@ -21,66 +20,11 @@ import (
 	"time"
 
 	"github.com/zeromicro/go-zero/core/timex"
+	c5 "github.com/zeromicro/go-zero/internal/verifc05"
 	"github.com/zeromicro/go-zero/internal/verifh"
 )
 
 // ---------------------------------------------------------------- generator
-
-func c05SeqOps(r *verifh.Rng, n, nops int, withBorrow bool) []string {
-	var ops []string
-	out := 0 // generator's own estimate, only used to steer towards full/empty states
-	for len(ops) < nops {
-		phase := r.Intn(4) // 0 fill, 1 drain, 2 mixed, 3 boundary poke
-		k := r.Range(1, n+2)
-		for j := 0; j < k; j++ {
-			switch phase {
-			case 0:
-				if withBorrow && r.Chance(1, 3) {
-					ops = append(ops, "borrow")
-				} else {
-					ops = append(ops, "try")
-				}
-				if out < n {
-					out++
-				}
-			case 1:
-				ops = append(ops, "return")
-				if out > 0 {
-					out--
-				}
-			case 2:
-				switch x := r.Intn(10); {
-				case x < 4:
-					ops = append(ops, "try")
-					if out < n {
-						out++
-					}
-				case x < 5 && withBorrow:
-					ops = append(ops, "borrow")
-					if out < n {
-						out++
-					}
-				case x < 9:
-					ops = append(ops, "return")
-					if out > 0 {
-						out--
-					}
-				default:
-					ops = append(ops, "probe")
-				}
-			default:
-				ops = append(ops, "probe")
-				if out == n {
-					ops = append(ops, r.PickS("try", "try", "borrow"))
-				} else if out == 0 {
-					ops = append(ops, "return")
-				}
-			}
-		}
-	}
-	ops = append(ops, "probe")
-	return ops
-}
 
 func c05PoolOps(r *verifh.Rng, n, maxage, nops int, breach bool) []string {
 	var ops []string
@@ -131,30 +75,18 @@ func c05PoolOps(r *verifh.Rng, n, maxage, nops int, breach bool) []string {
 
 func c05Gen(r *verifh.Rng) []verifh.Section {
 	var secs []verifh.Section
-	pickN := func() int {
-		switch r.Intn(6) {
-		case 0:
-			return 1
-		case 1:
-			return 2
-		case 2:
-			return 3
-		case 3:
-			return r.Range(4, 8)
-		default:
-			return r.Range(1, 16)
-		}
-	}
+	pickN := func() int { return c5.PickN(r) }
+	ret := func() string { return "return" }
 	// sequential differential
 	for i := 0; i < verifh.Scale(10, 150); i++ {
 		n := pickN()
 		secs = append(secs, verifh.Section{Cfg: fmt.Sprintf("kind=limit mode=seq n=%d", n),
-			Ops: c05SeqOps(r, n, r.Range(10, 60), true)})
+			Ops: c5.SeqOps(r, n, r.Range(10, 60), true, ret)})
 	}
 	for i := 0; i < verifh.Scale(5, 60); i++ {
 		n := pickN()
 		secs = append(secs, verifh.Section{Cfg: fmt.Sprintf("kind=tlimit mode=seq n=%d", n),
-			Ops: c05SeqOps(r, n, r.Range(10, 40), true)})
+			Ops: c5.SeqOps(r, n, r.Range(10, 40), true, ret)})
 	}
 	for i := 0; i < verifh.Scale(12, 200); i++ {
 		n := r.Pick(1, 1, 2, 3, r.Range(1, 6))
@@ -194,63 +126,7 @@ func c05Gen(r *verifh.Rng) []verifh.Section {
 	return secs
 }
 
-// ---------------------------------------------------------------- shared helpers for histories
-
-type c05Ev struct {
-	stamp int64
-	tok   string
-}
-
-type c05Hist struct {
-	ctr   int64
-	mu    sync.Mutex
-	evs   []c05Ev
-	local [][]c05Ev
-}
-
-func newC05Hist(g int) *c05Hist { return &c05Hist{local: make([][]c05Ev, g)} }
-
-// rec stamps an event of goroutine gid (its own slice: no lock on the hot path).
-func (h *c05Hist) rec(gid int, tok string) {
-	s := atomic.AddInt64(&h.ctr, 1)
-	h.local[gid] = append(h.local[gid], c05Ev{s, tok})
-}
-
-// recShared stamps an event from a callback that may run on any goroutine.
-func (h *c05Hist) recShared(tok string) {
-	s := atomic.AddInt64(&h.ctr, 1)
-	h.mu.Lock()
-	h.evs = append(h.evs, c05Ev{s, tok})
-	h.mu.Unlock()
-}
-
-func (h *c05Hist) tokens() []string {
-	all := append([]c05Ev(nil), h.evs...)
-	for _, l := range h.local {
-		all = append(all, l...)
-	}
-	sort.Slice(all, func(i, j int) bool { return all[i].stamp < all[j].stamp })
-	out := make([]string, len(all))
-	for i, e := range all {
-		out[i] = e.tok
-	}
-	return out
-}
-
-func c05Params(op []string) verifh.Cfg { return verifh.ParseCfg(strings.Join(op[1:], " ")) }
-
-func c05Hold(r *verifh.Rng) {
-	for k := r.Intn(4); k > 0; k-- {
-		runtime.Gosched()
-	}
-}
-
-// c05Guarded runs body with a deferred release, swallowing the harness' own panic.
-func c05Guarded(release func(), body func()) {
-	defer func() { _ = recover() }()
-	defer release()
-	body()
-}
+// ---------------------------------------------------------------- semaphore runs
 
 type c05Sem interface {
 	TryBorrow() bool
@@ -269,59 +145,41 @@ func c05Probe(l c05Sem, n int) int {
 }
 
 func c05RunSem(op []string, n int, borrow func(r *verifh.Rng) bool, l c05Sem) string {
-	p := c05Params(op)
+	p := c5.Params(op)
 	g, iters, try, pan := p.Int("g", 2), p.Int("iters", 10), p.Int("try", 0), p.Int("pan", 0)
-	h := newC05Hist(g)
-	var gauge, peak int64
+	h := c5.NewHist(g)
+	ga := &c5.Gauge{}
 	var wg sync.WaitGroup
 	for gid := 0; gid < g; gid++ {
 		wg.Add(1)
 		go func(gid int) {
 			defer wg.Done()
-			r := verifh.NewRng(uint64(p.Int("rs", 1))*1000003 + uint64(gid))
+			r := c5.Rng(p, gid)
 			for i := 0; i < iters; i++ {
 				if r.Intn(100) < try {
 					if !l.TryBorrow() {
-						h.rec(gid, "x"+strconv.Itoa(gid))
+						h.Rec(gid, "x"+strconv.Itoa(gid))
 						runtime.Gosched()
 						continue
 					}
 				} else if !borrow(r) {
-					h.rec(gid, "x"+strconv.Itoa(gid))
+					h.Rec(gid, "x"+strconv.Itoa(gid))
 					continue
 				}
-				c05Guarded(func() {
+				c5.Guarded(func() {
 					if err := l.Return(); err != nil {
-						h.rec(gid, "e"+strconv.Itoa(gid))
+						h.Rec(gid, "e"+strconv.Itoa(gid))
 					}
-				}, func() {
-					h.rec(gid, "+"+strconv.Itoa(gid))
-					v := atomic.AddInt64(&gauge, 1)
-					for {
-						pk := atomic.LoadInt64(&peak)
-						if v <= pk || atomic.CompareAndSwapInt64(&peak, pk, v) {
-							break
-						}
-					}
-					c05Hold(r)
-					atomic.AddInt64(&gauge, -1)
-					if r.Intn(100) < pan {
-						h.rec(gid, "!"+strconv.Itoa(gid))
-						panic("c05: holder panics")
-					}
-					h.rec(gid, "-"+strconv.Itoa(gid))
-				})
+				}, func() { c5.Inside(h, ga, r, gid, gid, pan) })
 			}
 		}(gid)
 	}
 	wg.Wait()
-	toks := h.tokens()
-	toks = append(toks, fmt.Sprintf("gauge=%d", atomic.LoadInt64(&peak)), fmt.Sprintf("free=%d", c05Probe(l, n)))
-	return strings.Join(toks, " ")
+	return c5.RunLine(h, ga, c05Probe(l, n))
 }
 
 func c05Rogue(op []string, n int, l c05Sem) string {
-	p := c05Params(op)
+	p := c5.Params(op)
 	g, iters := p.Int("g", 2), p.Int("iters", 10)
 	var borrows, returns, errs int64
 	var wg sync.WaitGroup
@@ -329,7 +187,7 @@ func c05Rogue(op []string, n int, l c05Sem) string {
 		wg.Add(1)
 		go func(gid int) {
 			defer wg.Done()
-			r := verifh.NewRng(uint64(p.Int("rs", 1))*1000003 + uint64(gid))
+			r := c5.Rng(p, gid)
 			for i := 0; i < iters; i++ {
 				if r.Intn(100) < 45 {
 					if l.TryBorrow() {
@@ -450,7 +308,7 @@ func c05StartPool(cfg verifh.Cfg) (func(op []string) string, func()) {
 	var mu sync.Mutex // create/destroy run under the pool's lock; the mutex only keeps -race quiet about the logs
 	next := 0
 	var createdLog, destroyedLog []int
-	var hist *c05Hist
+	var hist *c5.Hist
 	create := func() any {
 		mu.Lock()
 		id := next
@@ -458,7 +316,7 @@ func c05StartPool(cfg verifh.Cfg) (func(op []string) string, func()) {
 		createdLog = append(createdLog, id)
 		mu.Unlock()
 		if hist != nil {
-			hist.recShared("c:" + strconv.Itoa(id))
+			hist.RecShared("c:" + strconv.Itoa(id))
 		}
 		return id
 	}
@@ -467,7 +325,7 @@ func c05StartPool(cfg verifh.Cfg) (func(op []string) string, func()) {
 		destroyedLog = append(destroyedLog, x.(int))
 		mu.Unlock()
 		if hist != nil {
-			hist.recShared("d:" + strconv.Itoa(x.(int)))
+			hist.RecShared("d:" + strconv.Itoa(x.(int)))
 		}
 	}
 	p := NewPool(n, create, destroy, WithMaxAge(time.Duration(maxage)))
@@ -527,9 +385,9 @@ func c05StartPool(cfg verifh.Cfg) (func(op []string) string, func()) {
 			}
 			return fmt.Sprintf("created=%d idle=%s", p.created, s)
 		case "run":
-			pr := c05Params(op)
+			pr := c5.Params(op)
 			g, iters, pan := pr.Int("g", 2), pr.Int("iters", 10), pr.Int("pan", 0)
-			hist = newC05Hist(g)
+			hist = c5.NewHist(g)
 			inUse := make([]int32, 1<<16)
 			var wg sync.WaitGroup
 			var double int64
@@ -537,20 +395,20 @@ func c05StartPool(cfg verifh.Cfg) (func(op []string) string, func()) {
 				wg.Add(1)
 				go func(gid int) {
 					defer wg.Done()
-					r := verifh.NewRng(uint64(pr.Int("rs", 1))*1000003 + uint64(gid))
+					r := c5.Rng(pr, gid)
 					for i := 0; i < iters; i++ {
 						x := p.Get().(int)
-						c05Guarded(func() { p.Put(x) }, func() {
-							hist.rec(gid, fmt.Sprintf("g:%d:%d", gid, x))
+						c5.Guarded(func() { p.Put(x) }, func() {
+							hist.Rec(gid, fmt.Sprintf("g:%d:%d", gid, x))
 							if !atomic.CompareAndSwapInt32(&inUse[x&0xffff], 0, 1) {
 								atomic.AddInt64(&double, 1)
 							}
-							c05Hold(r)
+							c5.Hold(r)
 							if maxage > 0 && r.Chance(1, 4) {
 								timex.VerifAdvance(time.Duration(r.Range(1, maxage)))
 							}
 							atomic.StoreInt32(&inUse[x&0xffff], 0)
-							hist.rec(gid, fmt.Sprintf("p:%d:%d", gid, x))
+							hist.Rec(gid, fmt.Sprintf("p:%d:%d", gid, x))
 							if r.Intn(100) < pan {
 								panic("c05: holder panics")
 							}
@@ -562,7 +420,7 @@ func c05StartPool(cfg verifh.Cfg) (func(op []string) string, func()) {
 				}(gid)
 			}
 			wg.Wait()
-			toks := hist.tokens()
+			toks := hist.Tokens()
 			hist = nil
 			nidle := 0
 			for nd := p.head; nd != nil; nd = nd.next {
